@@ -38,18 +38,29 @@ Val(r, j, n) == [i \in 1..n |-> (37 * r + 16 * j + i) % 251]
 VarLenOf(r, j) == IF (r + j) % 3 = 0 THEN 0 ELSE IF (r + j) % 3 = 1 THEN 3 ELSE 2
 VarLong(r, j) == (r + j) % 3 = 2
 
-Descs ==
-  SetToSeq(
-    {[proto |-> "v9", fs |-> [j \in 1..Len(fl) |-> SpecOf(fl[j])], nrec |-> n, pad |-> pd, two |-> tw]
-       : fl \in FieldLists(Menu9), n \in 1..2, pd \in 0..3, tw \in BOOLEAN}
-    \cup
-    {[proto |-> "ipfix", fs |-> [j \in 1..Len(fl) |-> SpecOf(fl[j])], nrec |-> n, pad |-> pd, two |-> tw]
-       : fl \in FieldLists(MenuX), n \in 1..2, pd \in 0..3, tw \in BOOLEAN})
+\* Descriptors are numbered; the number is a mixed-radix code of (field digits, nrec, pad, two, protocol)
+\* so that a descriptor is recovered from its number by arithmetic (no search, nothing to cache).
+Menu9S == SetToSeq(Menu9)
+MenuXS == SetToSeq(MenuX)
+Base == Max2(Len(Menu9S), Len(MenuXS)) + 1
+Pow(b, k) == IF k = 0 THEN 1 ELSE IF k = 1 THEN b ELSE IF k = 2 THEN b * b ELSE b * b * b
+NumDesc == Pow(Base, MaxFields) * 32
+Digits(n) == [k \in 1..MaxFields |-> (n \div Pow(Base, MaxFields - k)) % Base]      \* field digits, 0 = no field
+DescFromIndex(n) ==
+  LET proto == IF n % 2 = 0 THEN "v9" ELSE "ipfix"
+      menu == IF proto = "v9" THEN Menu9S ELSE MenuXS
+      dg == Digits(n \div 32)
+      nf == Cardinality({k \in 1..MaxFields : dg[k] # 0})
+      wf == /\ nf >= 1
+            /\ \A k \in 1..MaxFields : (dg[k] # 0) = (k <= nf)      \* digits are prefix-closed
+            /\ \A k \in 1..nf : dg[k] <= Len(menu)
+  IN [ok |-> wf, proto |-> proto, two |-> (n \div 2) % 2 = 1, pad |-> (n \div 4) % 4, nrec |-> ((n \div 16) % 2) + 1,
+      fs |-> IF wf THEN [k \in 1..nf |-> SpecOf(menu[dg[k]])] ELSE <<>>]
 
 MinSize(d) == SumSeq([j \in 1..Len(d.fs) |-> IF d.fs[j].len = VarLen THEN 1 ELSE d.fs[j].len])
 \* a descriptor is admissible when its padding is shorter than the shortest record (RFC 3954 / RFC 7011),
 \* some field has a length, and the second template of a two-template set is cheap to tell apart
-Admissible(d) == /\ d.pad < MinSize(d) /\ (\E j \in 1..Len(d.fs) : d.fs[j].len > 0)
+Admissible(d) == /\ d.ok /\ d.pad < MinSize(d) /\ (\E j \in 1..Len(d.fs) : d.fs[j].len > 0)
                  /\ (d.two => d.pad = 0 /\ d.nrec = 1)
 
 Content(d, r, j) == IF d.fs[j].len = VarLen THEN Val(r, j, VarLenOf(r, j)) ELSE Val(r, j, d.fs[j].len)
@@ -59,16 +70,16 @@ OtherT == [id |-> 257, count |-> 1, fields |-> <<Spec9(2, 4)>>]
 TRecs(d) == IF d.two THEN <<OtherT, Tmpl(d, 256)>> ELSE <<Tmpl(d, 256)>>
 DataBody(d) == Flatten([r \in 1..d.nrec |-> Flatten([j \in 1..Len(d.fs) |-> RawVal(d, r, j)])]) \o Zeros(d.pad)
 
-\* the index of the descriptor travels in the sequence-number field of the header, so that the
-\* invariants can find the descriptor a buffer was built from without searching
-Tag(i) == <<0, 0, i \div 256, i % 256>>
+\* the number of the descriptor travels in the sequence-number field of the header, so that the
+\* invariants find the descriptor a buffer was built from without searching
+Tag(i) == <<0, i \div 65536, (i \div 256) % 256, i % 256>>
+UnTag(e) == e[2] * 65536 + e[3] * 256 + e[4]
 Enc(d, i) == IF d.proto = "v9"
                THEN EncV9Hdr(2, [H9 EXCEPT !.seq = Tag(i)]) \o EncV9TmplSet(TRecs(d), <<>>) \o EncSet(256, DataBody(d))
                ELSE EncIpfixMsg([HX EXCEPT !.seq = Tag(i)], <<EncIpfixTmplSet(TRecs(d), <<>>), EncSet(256, DataBody(d))>>)
 
-Good == SelectSeq(Descs, Admissible)
-MCBuffers == {Enc(Good[i], i) : i \in 1..Len(Good)}
-DescOf(b) == Good[IF U16At(b, 1) = 9 THEN U16At(b, 15) ELSE U16At(b, 11)]
+MCBuffers == {Enc(DescFromIndex(i), i) : i \in {n \in 0..(NumDesc - 1) : Admissible(DescFromIndex(n))}}
+DescOf(b) == DescFromIndex(UnTag(IF U16At(b, 1) = 9 THEN Slice(b, 13, 4) ELSE Slice(b, 9, 4)))
 
 -----------------------------------------------------------------------------
 \* re-encode a decoded item from its structure alone
